@@ -615,7 +615,7 @@ def parse_rec(rec):
     f = rec.split(" / ")
     c = ints(f[4])
     cons = []
-    for t in (f[7].split() if len(f) > 7 else []):
+    for t in f[7].split()[1:]:
         a, b, ex = t.split(":")
         cons.append((int(a), int(b), int(ex)))
     return {"ta": ints(f[0]), "qpos": f[1].split(), "qvel": f[2].split(), "hash": f[3], "ncon": c[0], "ntree_awake": c[1],
@@ -675,7 +675,7 @@ def scene_scripts(ctx, impl, nscenes):
         model_line = "model " + " ; ".join(L)
         settle = rng.choice((150, 250, 400))
         # ---- run 1: settle with sleep enabled; run 2: same with sleep disabled (hash comparison while nobody is asleep)
-        lines = [model_line, "sstep %d" % settle, "sflag 0", "sreset", "sstep %d" % settle, "sflag 1", "sreset", "sstep %d" % settle]
+        lines = [model_line, "sstep %d" % settle, model_line, "sflag 0", "sreset", "sstep %d" % settle, model_line, "sreset", "sstep %d" % settle]
         rc, outs, err = run_impl(ctx, impl, lines)
         replay = {"scene_lines": lines[:1], "settle": settle, "how": "feed scene_lines + the listed commands to the c18_sleep harness"}
         if rc != 0 or len(outs) != len(lines) or not outs[0].startswith("model-ok") or any(o.startswith("error") for o in outs):
@@ -684,8 +684,8 @@ def scene_scripts(ctx, impl, nscenes):
         info = parse_model_out(outs[0])
         stats["scenes"] += 1
         recs_on = [parse_rec(x) for x in outs[1][3:].split(" ; ")]
-        recs_off = [parse_rec(x) for x in outs[4][3:].split(" ; ")]
-        recs_on2 = [parse_rec(x) for x in outs[7][3:].split(" ; ")]
+        recs_off = [parse_rec(x) for x in outs[5][3:].split(" ; ")]
+        recs_on2 = [parse_rec(x) for x in outs[8][3:].split(" ; ")]
         if not check_records(ctx, info, recs_on, set(), dict(replay, commands=lines[1:2]), stats):
             continue
         # determinism of the harness itself (guards the comparison below against false alarms)
@@ -698,7 +698,7 @@ def scene_scripts(ctx, impl, nscenes):
             stats["equal_hash_steps"] += 1
             if a["hash"] != b["hash"] or a["qpos"] != b["qpos"] or a["qvel"] != b["qvel"]:
                 ctx.oracle_failure("c18:enabled-differs-while-awake", "sleep enabled but no tree asleep: outputs differ from sleep disabled",
-                                   dict(replay, step=k, commands=lines[1:5]))
+                                   dict(replay, step=k, commands=lines[1:6]))
                 break
         final = recs_on[-1]["ta"]
         if any(v >= 0 for v in final):
@@ -790,7 +790,7 @@ def random_model_scenes(ctx, impl, nmodels):
         model_line = "model " + " ; ".join(mdl.lines)
         nstep = rng.choice((60, 120, 200))
         pre = ["sopt sleep_tolerance %r" % tol] if tol is not None else []
-        lines = [model_line] + pre + ["sreset", "sstep %d" % nstep, "sflag 0", "sreset", "sstep %d" % nstep]
+        lines = [model_line] + pre + ["sreset", "sstep %d" % nstep, model_line] + pre + ["sflag 0", "sreset", "sstep %d" % nstep]
         rc, outs, err = run_impl(ctx, impl, lines)
         rp = {"scene_lines": [model_line], "commands": lines[1:]}
         if rc != 0 or len(outs) != len(lines):
@@ -800,7 +800,7 @@ def random_model_scenes(ctx, impl, nmodels):
             st["compile_errors"] += 1
             continue
         info = parse_model_out(outs[0])
-        i_on, i_off = 2 + len(pre), 5 + len(pre)
+        i_on, i_off = 2 + len(pre), 6 + 2 * len(pre)
         if outs[i_on].startswith("error") or outs[i_off].startswith("error"):
             # engine errors are legitimate for some generated models (e.g. tendon equality + sleep); they must agree in kind
             st["engine_errors"] += 1
